@@ -27,25 +27,28 @@ pub struct Case {
 }
 
 // the last six: sibling names of which one is the front of another ("ex1" / "ex10", "boot" / "boot2", "v" / "ve" / "ver")
-const DIRN: [&str; 14] = ["game", "sqpack", "ffxiv", "ex1", "boot", "d", "v1..2", "d.e", "ex10", "boot2", "v", "ve", "ver", "ex"];
+// 14..18: names that differ from another name of the pool in letter case only, and names that start with a dot
+const DIRN: [&str; 18] = ["game", "sqpack", "ffxiv", "ex1", "boot", "d", "v1..2", "d.e", "ex10", "boot2", "v", "ve", "ver", "ex", "Game", "BOOT", ".cache", ".meta"];
 /// the second half: names that are a directory name of the pool followed by a byte that sorts below '/', so that the
 /// order of whole path strings and the order of paths compared component by component disagree
-const FILEN: [&str; 28] = ["a.bin", "b.dat", "ffxivgame.ver", "000000.win32.dat0", "000000.win32.index", "c.txt", "UPPER.Case", "x", "d.bak", "boot-old.bin", "game .txt", "ex1.ver", "sqpack+1.dat", "ffxiv!", "d-", "boot.d.e",
+const FILEN: [&str; 34] = ["a.bin", "b.dat", "ffxivgame.ver", "000000.win32.dat0", "000000.win32.index", "c.txt", "UPPER.Case", "x", "d.bak", "boot-old.bin", "game .txt", "ex1.ver", "sqpack+1.dat", "ffxiv!", "d-", "boot.d.e",
     // names sharing their stem with another name of the pool (a.bin / a.tmp, c.txt / c.tmp, ...), and names with a backslash
     // (an ordinary character of a file name here)
     "a.tmp", "c.tmp", "b.tmp", "UPPER.tmp", "x.tmp", "win\\style.bin", "key\\value.cfg", "a.bak",
     // consecutive dots inside a name (not a path component of their own)
-    "notes..txt", "save..bak", "a..b", "...rc"];
+    "notes..txt", "save..bak", "a..b", "...rc",
+    // the same name in another letter case (two different files here), and hidden files
+    "A.BIN", "c.TXT", "upper.case", ".version", ".lastpatch", "B.dat"];
 
 fn path_of(e: &Entry) -> String {
     let mut s = String::new();
     for d in &e.dirs {
-        s.push_str(DIRN[*d as usize % 14]);
+        s.push_str(DIRN[*d as usize % 18]);
         s.push('/');
     }
     // "x" has no dot: make it unambiguous as a file name
-    s.push_str(FILEN[e.name as usize % 28]);
-    if FILEN[e.name as usize % 28] == "x" {
+    s.push_str(FILEN[e.name as usize % 34]);
+    if FILEN[e.name as usize % 34] == "x" {
         s.push_str(".f");
     }
     s
@@ -64,7 +67,7 @@ fn size(max: u32) -> BoxedStrategy<u32> {
 
 fn strategy(ctx: &Ctx) -> BoxedStrategy<Case> {
     let max = ctx.tier.pick(8 * 1024u32, 400 * 1024u32);
-    vec((vec(prop_oneof![6 => 0u8..6, 1 => 6u8..8, 5 => 8u8..14], 0..=4), prop_oneof![3 => 0u8..8, 2 => 8u8..16, 2 => 16u8..24, 1 => 24u8..28], prop_oneof![8 => 0u8..4, 1 => 4u8..8], size(max), size(max), any::<u64>()).prop_map(|(dirs, name, kind, size_a, size_b, seed)| Entry { dirs, name, kind, size_a, size_b, seed }), 1..=10)
+    vec((vec(prop_oneof![6 => 0u8..6, 1 => 6u8..8, 5 => 8u8..14, 3 => 14u8..18], 0..=4), prop_oneof![3 => 0u8..8, 2 => 8u8..16, 2 => 16u8..24, 1 => 24u8..28, 2 => 28u8..34], prop_oneof![8 => 0u8..4, 1 => 4u8..8], size(max), size(max), any::<u64>()).prop_map(|(dirs, name, kind, size_a, size_b, seed)| Entry { dirs, name, kind, size_a, size_b, seed }), 1..=10)
         .prop_map(|entries| Case { entries })
         .boxed()
 }
